@@ -164,6 +164,31 @@ def check_seed_changes():
     return fails
 
 
+def check_seed_range(nseeds=1000):
+    """every random_state in [0, nseeds) with the real generator, 3 and 4 rows: every one of the n! orders occurs
+    (probability of a miss under a uniform shuffle < 1e-17), each call a valid partition."""
+    fails = []
+    for n in (3, 4):
+        data = make_data([n])
+        orders = set()
+        for s in range(nseeds):
+            try:
+                r = U.split_data([data[0].copy()], [0.5, 0.25, 0.25], random_state=s)
+                got = tuple(int(row[0]) for f in r for row in rows_of(f[0]))
+            except Exception as e:
+                import traceback
+                if all("/mc/" in fr.filename for fr in traceback.extract_tb(e.__traceback__)[-1:]):
+                    raise                   # raised inside the checker itself: a harness error, not a verdict
+                return [("raises", "split_data(%d rows, random_state=%d) raised %r" % (n, s, e))]
+            if sorted(got) != list(range(n)):
+                return [("rows-lost", "split_data(%d rows, [0.5,0.25,0.25], random_state=%d) returned rows %s" % (n, s, got))]
+            orders.add(got)
+        total = 6 if n == 3 else 24
+        if len(orders) != total:
+            fails.append(("shuffle-not-uniform", "split_data of %d rows: over random_state 0..%d only %d of the %d! assignments occur" % (n, nseeds - 1, len(orders), n)))
+    return fails
+
+
 def check_error(rv_floats):
     data = make_data([5, 3])
     d = "split_data(sizes=[5, 3], ratios=%s)" % (rv_floats,)
@@ -205,6 +230,8 @@ def explore_shuffle(sizes, acc, tier):
     rv = [[1, 2], [1, 4], [1, 4]]
     ratios = floats(rv)
     seen = set()
+    kinds = set()
+    unmodelled = [0]
     total = 1
     for n in sizes:
         for t in range(2, n + 1):
@@ -218,8 +245,10 @@ def explore_shuffle(sizes, acc, tier):
         if any(prefix):
             acc.nontrivial += 1
         d = "split_data(sizes=%s, ratios=%s) [shuffle answers %s]" % (sizes, ratios, list(prefix))
+        kinds.update(pt["kind"] for pt in tp.points)
         if tp.unmodelled:
             acc.undecided += 1
+            unmodelled[0] += 1
             return tp.points
         if res[0] != "ok":
             fails.append(("shuffle-exec", {"sizes": sizes, "answers": list(prefix)}, "raises", "%s raised %s" % (d, res[2])))
@@ -252,7 +281,10 @@ def explore_shuffle(sizes, acc, tier):
         n, capped2 = tape.explore(run, bound=2, max_exec=60000)
         mode = "deviation<=2"
     acc.extra["shuffle_configs_" + mode] += 1
-    if mode == "complete" and not fails and len(seen) != total:
+    # "distinct answers => distinct assignments" presupposes that the shuffle is drawn through permutation cells (rng.shuffle /
+    # rng.permutation); other legitimate ways to shuffle (random keys + argsort, Fisher-Yates by integers) are judged per
+    # execution only, their uniformity by the seed-range stage
+    if mode == "complete" and not fails and not unmodelled[0] and kinds <= {"permutation"} and len(seen) != total:
         fails.append(("shuffle-config", {"sizes": sizes}, "shuffle-not-uniform", "split_data(sizes=%s): the %d shuffle answers give only %d distinct assignments" % (sizes, total, len(seen))))
     return fails
 
@@ -293,6 +325,9 @@ def run_unit(unit):
                 acc.fail("error", {"ratios": v}, sig, msg)
         for sig, msg in check_seed_changes():
             acc.fail("seeds", {}, sig, msg)
+        for sig, msg in check_seed_range():
+            acc.fail("seed-range", {}, sig, msg)
+        acc.extra["seed_range_executions"] += 2000
         acc.states += 1
         acc.transitions += 5
     else:
@@ -308,6 +343,8 @@ def replay(kind, case):
         return check_error(case["ratios"])
     if kind == "seeds":
         return check_seed_changes()
+    if kind == "seed-range":
+        return check_seed_range()
     if kind == "shuffle-config":
         return [(s, m) for _, _, s, m in explore_shuffle(case["sizes"], Acc(), _TIER[0])]
     fails = explore_shuffle(case["sizes"], Acc(), _TIER[0])
